@@ -435,7 +435,8 @@ pub fn run(args: &Args) -> i32 {
     // monitor: every DateTime returned by the search sweeps satisfies the invariant
     let tabs = Tables::build(&cyc);
     let ctx = Ctx { cyc: &cyc, rec: &rec, prop: Prop::C14, kf1_open: rec.kf_open("KF1"), kf2_open: rec.kf_open("KF2"), kf3_open: rec.kf_open("KF3") };
-    let ft = run_sweeps(&ctx, &tabs, thorough, !thorough);
+    // C19 digest mode: the search sweeps are C05's workload there
+    let ft = if args.digest_mode { crate::find::Tally::default() } else { run_sweeps(&ctx, &tabs, thorough, false) };
     rec.sub("search_monitor_totals", json!({"searches": ft.searches, "date_times_checked": ft.dts}));
     rec.add(total.evals + ft.dts, total.nontrivial + ft.with_gap);
     rec.digest("dtinv", total.digest);
